@@ -107,19 +107,18 @@ Definition sat (x : atom) (u : utest) : bool :=
   | UNeg l => negb (existsb (sat_item x) l)
   end.
 
-(* well-typed: the value is not null and every literal of the test has the kind of the value;
-   comparisons and intervals only over numbers and strings *)
+(* well-typed: every literal of the test is null or has the kind of the value (any literal if the value is null);
+   comparisons and intervals only over numbers and strings (so not against a null value) *)
 Definition ordered_kind (k : kind) : bool := match k with KNum | KStr => true | _ => false end.
 Definition item_typed (k : kind) (i : item) : bool :=
   match i with
-  | ILit a => kind_eqb (kind_of a) k
+  | ILit a => kind_eqb (kind_of a) k || kind_eqb k KNull || kind_eqb (kind_of a) KNull
   | ICmp _ a => kind_eqb (kind_of a) k && ordered_kind k
   | IRange lo _ hi _ => kind_eqb (kind_of lo) k && kind_eqb (kind_of hi) k && ordered_kind k
   end.
 Definition utest_typed (k : kind) (u : utest) : bool :=
   match u with UAny => true | UPos l | UNeg l => forallb (item_typed k) l end.
-Definition value_typed (x : atom) (u : utest) : bool :=
-  negb (kind_eqb (kind_of x) KNull) && utest_typed (kind_of x) u.
+Definition value_typed (x : atom) (u : utest) : bool := utest_typed (kind_of x) u.
 
 (* ---------------- ImplModel: three-valued evaluation as in feel-evaluator ---------------- *)
 Inductive tv := TT | TF | TN.
@@ -167,25 +166,29 @@ Definition in_range (x lo : atom) (lc : bool) (hi : atom) (hc : bool) : tv :=
   | _, _, _ => TN
   end.
 
-(* one item of eval_in_list; None = an item kind the loop does not handle (it returns null at once) *)
-Definition item_tv (x : atom) (i : item) : option tv :=
+(* one item of eval_in_list; None = an item kind the loop does not handle (it returns null at once).
+   nl = the null literal is a test like any other literal (after the fix); at the pinned commit it was not handled *)
+Definition item_tv_gen (nl : bool) (x : atom) (i : item) : option tv :=
   match i with
-  | ILit ANull => None
+  | ILit ANull => if nl then Some (in_equal x ANull) else None
   | ILit a => Some (in_equal x a)
   | ICmp o a => Some (in_cmp o x a)
   | IRange lo lc hi hc => Some (in_range x lo lc hi hc)
   end.
 
-Fixpoint in_list (x : atom) (items : list item) : tv :=
+Fixpoint in_list_gen (nl : bool) (x : atom) (items : list item) : tv :=
   match items with
   | [] => TF
   | i :: rest =>
-      match item_tv x i with
+      match item_tv_gen nl x i with
       | None => TN
       | Some TT => TT
-      | Some _ => in_list x rest
+      | Some _ => in_list_gen nl x rest
       end
   end.
+
+Definition item_tv := item_tv_gen true.
+Definition in_list := in_list_gen true.
 
 (* eval_in_negated_list at the pinned commit: only number / string literals and the four comparisons *)
 Definition item_tv_neg_orig (x : atom) (i : item) : option tv :=
@@ -209,16 +212,19 @@ Fixpoint in_neg_list_orig (x : atom) (items : list item) : tv :=
   end.
 
 (* eval_in_negated_list after the fix: the negation of eval_in_list *)
-Definition in_neg_list (x : atom) (items : list item) : tv :=
-  match in_list x items with TT => TF | TF => TT | TN => TN end.
+Definition in_neg_list_gen (nl : bool) (x : atom) (items : list item) : tv :=
+  match in_list_gen nl x items with TT => TF | TF => TT | TN => TN end.
+Definition in_neg_list := in_neg_list_gen true.
 
 Section InTest.
+Variable orig : bool.       (* the pinned commit: `-` does not match null *)
+Variable nl : bool.         (* the null literal is handled as a test *)
 Variable neg : atom -> list item -> tv.
-(* build_in on the value of a parsed unary-tests node *)
+(* build_in on the value of a parsed unary-tests node; at the pinned commit `-` did not match a null value *)
 Definition in_test (x : atom) (u : utest) : tv :=
   match u with
-  | UAny => match x with ANull => TF | _ => TT end
-  | UPos l => in_list x l
+  | UAny => match x with ANull => if orig then TF else TT | _ => TT end
+  | UPos l => in_list_gen nl x l
   | UNeg l => neg x l
   end.
 End InTest.
@@ -233,11 +239,12 @@ Record rule := { r_in : list utest; r_out : list atom }.    (* output entries ar
 Record table := { t_policy : policy; t_inputs : list iclause; t_outputs : list oclause; t_rules : list rule }.
 
 (* `entry in allowed values`, shared by both layers for output entries: Out(entry, values) *)
-Definition out_filter (vals : option (list atom)) (a : atom) : atom :=
+Definition out_filter_gen (nl : bool) (vals : option (list atom)) (a : atom) : atom :=
   match vals with
   | None => a
-  | Some vs => if is_tt (in_list a (map ILit vs)) then a else ANull
+  | Some vs => if is_tt (in_list_gen nl a (map ILit vs)) then a else ANull
   end.
+Definition out_filter := out_filter_gen true.
 
 Fixpoint position (v : atom) (l : list atom) : option nat :=
   match l with
@@ -294,10 +301,12 @@ Definition bif_max (l : list atom) : atom :=
 Record erule := { matches : bool; outs : list atom }.       (* EvaluatedRule *)
 
 Section Impl.
-(* orig = true: the code at the pinned commit; false: after the three fix commits *)
+(* orig = true: the code at the pinned commit; false: after the fix commits.
+   nl = true: the null literal handled as a unary test (a repair that was NOT made: known finding null-literal-entry) *)
 Variable orig : bool.
+Variable nl : bool.
 
-Definition neg : atom -> list item -> tv := if orig then in_neg_list_orig else in_neg_list.
+Definition neg : atom -> list item -> tv := if orig then in_neg_list_orig else in_neg_list_gen nl.
 
 Definition component_names (t : table) : list N := flat_some (map o_name (t_outputs t)).
 (* pinned commit: all output values of all clauses appended into one vector *)
@@ -313,8 +322,8 @@ Definition build_ok (t : table) : bool :=
 
 Definition entry_true (x : atom) (ic : iclause) (e : utest) : bool :=
   match i_values ic with
-  | None => is_tt (in_test neg x e)
-  | Some vs => is_tt (in_list x vs) && is_tt (in_test neg x e)
+  | None => is_tt (in_test orig nl neg x e)
+  | Some vs => is_tt (in_list_gen nl x vs) && is_tt (in_test orig nl neg x e)
   end.
 
 Fixpoint rule_matches (xs : list atom) (ics : list iclause) (es : list utest) : bool :=
@@ -326,7 +335,7 @@ Fixpoint rule_matches (xs : list atom) (ics : list iclause) (es : list utest) : 
 
 Fixpoint rule_outs (ocs : list oclause) (os : list atom) : list atom :=
   match ocs, os with
-  | oc :: ocs', o :: os' => out_filter (o_values oc) o :: rule_outs ocs' os'
+  | oc :: ocs', o :: os' => out_filter_gen nl (o_values oc) o :: rule_outs ocs' os'
   | _, _ => []
   end.
 
@@ -451,8 +460,9 @@ Definition dt_impl_gen (t : table) (xs : list atom) : outcome :=
   if build_ok t then hit_policy t xs else OBuildCrash.
 End Impl.
 
-Definition dt_impl := dt_impl_gen false.
-Definition dt_impl_orig := dt_impl_gen true.
+Definition dt_impl := dt_impl_gen false false.         (* the code now *)
+Definition dt_impl_orig := dt_impl_gen true false.     (* the pinned commit *)
+Definition dt_impl_nl := dt_impl_gen false true.       (* the code if the null literal were handled as a test *)
 
 (* ================================================================== Spec *)
 (* a rule is a hit iff every input entry is satisfied by the corresponding input value (an input
@@ -587,8 +597,18 @@ Definition nonnull (a : atom) : bool := negb (kind_eqb (kind_of a) KNull).
 Definition entry_typed (x : atom) (ic : iclause) (e : utest) : bool :=
   value_typed x e && match i_values ic with None => true | Some vs => forallb (item_typed (kind_of x)) vs end.
 
-(* well-typed evaluation: one non-null input value per input clause, every literal of the clause's
-   entries and allowed values has the kind of the value *)
-Definition typed (t : table) (xs : list atom) : bool :=
+(* well-typed evaluation: one input value per input clause, every literal of the clause's entries and allowed values
+   is null or has the kind of the value *)
+Definition typed_nl (t : table) (xs : list atom) : bool :=
   Nat.eqb (length xs) (length (t_inputs t)) &&
   forallb (fun r => all3 entry_typed xs (t_inputs t) (r_in r)) (t_rules t).
+
+(* known finding null-literal-entry: the literal null is not handled as a unary test by the code *)
+Definition item_nonnull (i : item) : bool := match i with ILit ANull => false | _ => true end.
+Definition utest_nonnull (u : utest) : bool := match u with UAny => true | UPos l | UNeg l => forallb item_nonnull l end.
+Definition no_null_lits (t : table) : bool :=
+  forallb (fun ic => match i_values ic with None => true | Some vs => forallb item_nonnull vs end) (t_inputs t) &&
+  forallb (fun oc => match o_values oc with None => true | Some vs => forallb nonnull vs end) (t_outputs t) &&
+  forallb (fun r => forallb utest_nonnull (r_in r)) (t_rules t).
+
+Definition typed (t : table) (xs : list atom) : bool := typed_nl t xs && no_null_lits t.
